@@ -14,8 +14,8 @@ What happens here.
    they stop compiling when a component starts reading an unseeded source, stops honouring its `rng`
    argument, caches generator-derived state, or when a new global / OS / clock reader appears anywhere
    (other than through a `finding:` line of KNOWN_FINDINGS.txt).
-2. Cases are *programs* of stochastic API calls, including long-lived objects (`new` / `use` / `setrng`) built in a
-   set-up before the re-seeding.  `run_impl` executes each program twice in this process after two different
+2. Cases are *programs* of stochastic API calls, including long-lived objects (`new` / `use` / `setrng` / `copy`) built
+   in a set-up before the re-seeding; kind `xproc` runs one seeded program here and in a fresh interpreter process.  `run_impl` executes each program twice in this process after two different
    prior histories — with `share` the second execution CONTINUES with the objects of the first — and records, per
    step, digests of the result, of both global streams and of every live generator, plus where OS entropy was
    acquired.  Input arrays are long-lived too (one array object per argument, restored between cases).
@@ -95,16 +95,41 @@ def dig(x):
 
 
 def py_state():
-    return dig(random.getstate())
+    """digest of the `random` module's state (version, 625 words, cached gaussian); the words through one numpy buffer:
+    this is called four times per program step"""
+    st = random.getstate()
+    try:
+        h = hashlib.sha1()
+        h.update(str(st[0]).encode())
+        h.update(numpy.array(st[1], dtype=numpy.uint64).tobytes())
+        h.update(repr(st[2]).encode())
+        return h.hexdigest()[:16]
+    except Exception:
+        return dig(st)
+
+
+def _rs_state(rs):
+    d = rs.get_state(legacy=False)
+    try:
+        h = hashlib.sha1()
+        h.update(d["bit_generator"].encode())
+        h.update(d["state"]["key"].tobytes())
+        h.update(str(d["state"]["pos"]).encode())
+        h.update(str(d["has_gauss"]).encode())
+        h.update(float(d["gauss"]).hex().encode())
+        return h.hexdigest()[:16]
+    except Exception:
+        return dig(d)
 
 
 def np_state():
-    return dig(numpy.random.get_state())
+    """digest of numpy's legacy global RandomState (key, position, cached gaussian)"""
+    return _rs_state(_RAND)
 
 
 def gen_state(g):
     if isinstance(g, numpy.random.RandomState):
-        return dig(g.get_state())
+        return _rs_state(g)
     return dig(g.bit_generator.state)
 
 
@@ -127,14 +152,60 @@ def _site(depth=2):
     return "?"
 
 
-def _caller_module(depth=2):
+PLUGIN_PKGS = ("pymoo",)      # third-party frameworks whose operator base classes pybrops subclasses
+
+
+def _is_plugin_operator(obj):
+    """`obj` is an instance of a pybrops class that derives from an operator base class of a plug-in framework"""
+    try:
+        return any((c.__module__ or "").split(".")[0] in PLUGIN_PKGS for c in type(obj).__mro__)
+    except Exception:
+        return False
+
+
+def _np_token(depth=2):
+    """who called numpy.random.<fn>: `npfn:<module>` when the draw happens while a method of a plug-in operator
+    (a pybrops subclass of a pymoo Sampling / Crossover / Mutation ...) is on the stack or when the caller is not
+    pybrops code; `npfn:<module>:<function>` for any other pybrops function (so a finding about the custom
+    operators of a module does not cover a new reader elsewhere in that module)"""
     f = sys._getframe(depth)
     while f is not None:
         m = f.f_globals.get("__name__", "?")
         if m != __name__ and m.split(".")[0] != "numpy":
-            return m
+            break
         f = f.f_back
-    return "?"
+    if f is None:
+        return "npfn:?"
+    m0 = f.f_globals.get("__name__", "?")
+    if not m0.startswith("pybrops"):
+        return "npfn:" + m0
+    q0 = getattr(f.f_code, "co_qualname", f.f_code.co_name)
+    g = f
+    while g is not None:
+        gm = g.f_globals.get("__name__", "?")
+        if gm.startswith("pybrops"):
+            s_ = g.f_locals.get("self")
+            if s_ is not None and _is_plugin_operator(s_):
+                return "npfn:" + m0
+        g = g.f_back
+    return "npfn:" + m0 + ":" + q0
+
+
+def _py_token():
+    """who called random.<fn>: `pyfn:<pybrops module>` when a library (DEAP ...) called by that module draws,
+    `pyfn:<module>:<function>` when pybrops code calls `random.<fn>` itself; None for prng.py"""
+    f = sys._getframe(2)
+    m = f.f_globals.get("__name__", "?")
+    if m.startswith("pybrops"):
+        if m.startswith("pybrops.core.random.prng"):
+            return None
+        return "pyfn:" + m + ":" + getattr(f.f_code, "co_qualname", f.f_code.co_name)
+    while f is not None:
+        m = f.f_globals.get("__name__", "?")
+        if m.startswith("pybrops"):
+            return None if m.startswith("pybrops.core.random.prng") else "pyfn:" + m
+        f = f.f_back
+    return None
 
 
 def _pybrops_caller(depth=2):
@@ -210,7 +281,7 @@ class Tracer:
                 def mk(fn):
                     def wrapped(*a, **k):
                         if tr.npfn_sites is not None:
-                            tr.npfn_sites.add("npfn:" + _caller_module())
+                            tr.npfn_sites.add(_np_token())
                         return fn(*a, **k)
                     wrapped.__wrapped_c08__ = fn
                     return wrapped
@@ -224,9 +295,9 @@ class Tracer:
                 def mkpy(fn):
                     def wrapped(*a, **k):
                         if tr.npfn_sites is not None:
-                            m = _pybrops_caller()
-                            if m and not m.startswith("pybrops.core.random.prng"):
-                                tr.npfn_sites.add("pyfn:" + m)
+                            t_ = _py_token()
+                            if t_:
+                                tr.npfn_sites.add(t_)
                         return fn(*a, **k)
                     wrapped.__wrapped_c08__ = fn
                     return wrapped
@@ -271,6 +342,9 @@ def _leak_site(proxy):
                 inner = m
             s = f.f_locals.get("self")
             if s is not None and getattr(s, "_rng", None) is proxy:
+                # (optimisers by category: which of the thirteen GA classes a protocol defaults to is not the point)
+                if any(c.__name__ == "OptimizationAlgorithm" for c in type(s).__mro__):
+                    return "rngNone:OptimizationAlgorithm"
                 return "rngNone:" + type(s).__name__
         f = f.f_back
     return "gprng:" + (inner or "?")
@@ -285,6 +359,15 @@ def traced_global(log):
         if name.startswith("pybrops") and mod is not None and getattr(mod, "global_prng", None) is _RAND:
             saved.append(mod)
             mod.global_prng = proxy
+    # `def __init__(self, ..., rng = global_prng)`: the default was evaluated when the function was defined
+    dflts = []
+    for fn in _functions_with_global_default():
+        d0, k0 = fn.__defaults__, fn.__kwdefaults__
+        dflts.append((fn, d0, k0))
+        if d0:
+            fn.__defaults__ = tuple(proxy if x is _RAND else x for x in d0)
+        if k0:
+            fn.__kwdefaults__ = {k: (proxy if x is _RAND else x) for k, x in k0.items()}
     _TracedRS._log = log
     try:
         yield proxy
@@ -292,6 +375,39 @@ def traced_global(log):
         _TracedRS._log = None
         for mod in saved:
             mod.global_prng = _RAND
+        for fn, d0, k0 in dflts:
+            fn.__defaults__, fn.__kwdefaults__ = d0, k0
+
+
+_GLOBAL_DEFAULT_FNS = None
+
+
+def _functions_with_global_default():
+    """pybrops functions / methods one of whose default argument values IS the global generator"""
+    global _GLOBAL_DEFAULT_FNS
+    if _GLOBAL_DEFAULT_FNS is None:
+        import types
+        out, seen = [], set()
+
+        def visit(fn):
+            if isinstance(fn, (staticmethod, classmethod)):
+                fn = fn.__func__
+            if isinstance(fn, types.FunctionType) and id(fn) not in seen:
+                seen.add(id(fn))
+                if any(x is _RAND for x in (fn.__defaults__ or ())) or any(x is _RAND for x in (fn.__kwdefaults__ or {}).values()):
+                    out.append(fn)
+        for name, mod in list(sys.modules.items()):
+            if not name.startswith("pybrops") or mod is None:
+                continue
+            for v in list(vars(mod).values()):
+                if getattr(v, "__module__", None) != name:
+                    continue
+                visit(v)
+                if isinstance(v, type):
+                    for w in list(vars(v).values()):
+                        visit(w)
+        _GLOBAL_DEFAULT_FNS = out
+    return _GLOBAL_DEFAULT_FNS
 
 
 # ------------------------------------------------------------------------------------------------
@@ -337,7 +453,23 @@ def fixtures():
     z = r.randint(0, 3, size=(4, 9)).astype(float) - 1.0
     z = numpy.concatenate([z, z[:2]])
     kd = z.dot(z.T) / 7.0
-    _FX = {"pg": pg, "gm": gm, "bv": bv, "kmat": k, "kmat_psd_but_for_rounding": kd, "ntaxa": ntaxa, "nvrnt": nvrnt,
+    # partially structured data: a one-marker chromosome, a two-marker one, fully homozygous taxa next to fully
+    # heterozygous ones, a monomorphic marker
+    mat1 = mat.copy()
+    mat1[1, 0, :] = mat1[0, 0, :]                 # taxon 0 inbred
+    mat1[1, 1, :] = 1 - mat1[0, 1, :]             # taxon 1 heterozygous everywhere
+    mat1[:, 2, :h] = mat1[:1, 2, :h]              # taxon 2 inbred on the first chromosomes only
+    mat1[:, :, 3] = 1                             # monomorphic marker
+    chr1 = numpy.repeat([1, 2, 3], [1, 2, nvrnt - 3]).astype("int64")
+    gp1 = numpy.concatenate([[0.0], [0.0, 0.4], numpy.linspace(0, 1.1, nvrnt - 3)])
+    xo1 = numpy.full(nvrnt, 0.25)
+    xo1[[0, 1, 3]] = 0.5
+    pg1 = DensePhasedGenotypeMatrix(
+        mat=mat1, taxa=numpy.array([f"t{i}" for i in range(ntaxa)], dtype=object),
+        taxa_grp=numpy.arange(ntaxa, dtype="int64") // 2, vrnt_chrgrp=chr1, vrnt_phypos=phypos,
+        vrnt_name=numpy.array([f"m{i}" for i in range(nvrnt)], dtype=object), vrnt_genpos=gp1, vrnt_xoprob=xo1)
+    pg1.group_vrnt()
+    _FX = {"pg": pg, "pg1": pg1, "gm": gm, "bv": bv, "kmat": k, "kmat_psd_but_for_rounding": kd, "ntaxa": ntaxa, "nvrnt": nvrnt,
            "ntrait": ntrait, "probs": {}, "uncon_w": r.randint(0, 6, size=20).astype(float)}
     random.setstate(st_py)
     numpy.random.set_state(st_np)
@@ -456,6 +588,22 @@ def _problem(kind, nobj):
     return prob
 
 
+def _tie_problem(nobj):
+    """subset selection over 10 candidates whose breeding values take two levels only: almost every exchange
+    the hill climbers / GAs consider is an exact tie"""
+    fx = fixtures()
+    key = ("ties", nobj)
+    if key not in fx["probs"]:
+        import pybrops.breed.prot.sel.prob.EstimatedBreedingValueSelectionProblem as EP
+        ebv = numpy.array([[1.0, 0.0], [1.0, 0.0], [0.0, 1.0], [1.0, 0.0], [0.0, 1.0], [0.0, 1.0], [1.0, 0.0], [0.0, 1.0],
+                           [1.0, 0.0], [0.0, 1.0]])
+        fx["probs"][key] = EP.EstimatedBreedingValueSubsetSelectionProblem(
+            ebv=ebv, ndecn=4, decn_space=numpy.arange(10), decn_space_lower=numpy.repeat(0, 4),
+            decn_space_upper=numpy.repeat(9, 4), nobj=nobj, obj_wt=numpy.ones(nobj),
+            obj_trans=_sum_trans if nobj == 1 else _id_trans)
+    return fx["probs"][key]
+
+
 def _xconfig(nparent, v):
     def build():
         base = numpy.arange(3 * nparent).reshape(3, nparent)
@@ -466,6 +614,10 @@ def _xconfig(nparent, v):
 def _mate_args(nparent, v):
     """(xconfig, nmating, nprogeny, nself): scalars for v < 3, per-cross arrays with unequal entries above"""
     xc = _xconfig(nparent, v % 3)
+    if v == 5 and nparent > 1:
+        # crosses whose parents coincide (a selfing row, a backcross-like row with a repeated parent)
+        xc = shared(("xconfig_dup", nparent), lambda: numpy.array(
+            [[3] * nparent, list(range(nparent)), [2] * (nparent - 1) + [5]]))
     if v < 3:
         return xc, 1, 1 + v % 2, v % 2
     nm = shared(("nmating", v), lambda: numpy.array([1, 2, 1]))
@@ -484,12 +636,16 @@ def _mate_cls(clsname):
     return getattr(importlib.import_module("pybrops.breed.prot.mate." + clsname), clsname)
 
 
+def _mate_pg(v):
+    fx = fixtures()
+    return fx["pg1"] if v >= 4 else fx["pg"]      # v = 4, 5: one-marker chromosome, inbred / heterozygous parents
+
+
 def _mate(clsname, nparent):
     def run(rng, v):
-        fx = fixtures()
         m = _mate_cls(clsname)(rng=rng)
         xc, nm, npg, nself = _mate_args(nparent, v)
-        out = m.mate(fx["pg"], xc, nm, npg, nself=nself)
+        out = m.mate(_mate_pg(v), xc, nm, npg, nself=nself)
         return [out.mat, out.taxa, out.taxa_grp]
     return run
 
@@ -500,7 +656,7 @@ def _mate_obj(clsname, nparent):
 
     def use(m, v):
         xc, nm, npg, nself = _mate_args(nparent, v)
-        return _mate_out(m.mate(fixtures()["pg"], xc, nm, npg, nself=nself))
+        return _mate_out(m.mate(_mate_pg(v), xc, nm, npg, nself=nself))
     return new, use
 
 
@@ -611,7 +767,8 @@ def _opt_new(modname, clsname, ga=True):
 
 def _opt_use(kind, nobj):
     def use(a, v):
-        s = a.minimize(_problem(kind, nobj))
+        # subset optimisers: odd variants run on the tie-rich problem
+        s = a.minimize(_tie_problem(nobj) if (kind == "subset" and v % 2) else _problem(kind, nobj))
         return [s.soln_decn, s.soln_obj]
     return use
 
@@ -645,6 +802,8 @@ def _jitter(rng, v):
         warnings.simplefilter("ignore")
         if v == 2:                               # jitter far too small: every attempt fails, the diagonal is restored
             ok = c.apply_jitter(eigvaltol=-1.0, minjitter=1e-12, maxjitter=1e-11, nattempt=3)
+        elif v == 1:                             # jitter range in which one attempt in eleven succeeds: late attempts
+            ok = c.apply_jitter(eigvaltol=-1.0, minjitter=1.0, maxjitter=5.0, nattempt=60)
         elif v < 3:
             ok = c.apply_jitter(eigvaltol=-1.0, minjitter=3.0 * (1 + v), maxjitter=9.0 * (1 + v), nattempt=50)
         else:                                    # duplicated taxa: one eigenvalue is ~ -1e-17, default tolerance
@@ -665,24 +824,54 @@ def _embv(rng, v):
     return m.mat
 
 
+DEFAULT_OPT_VARIANTS = (4, 5)      # select() variants that leave the optimiser to the protocol's default
+
+
 def _select_new(protname):
+    """select() of the four decision-space kinds (each protocol base class has its own copy of select()), odd
+    variants take the multi-objective branch (NSGA-II front, then the weighted choice); variants 4 and 5 do not
+    hand over an optimiser: the protocol constructs its default one (trimmed to 3 generations of 8 afterwards)"""
     def new(rng, v):
-        fx = fixtures()
         from pybrops.opt.algo.SteepestDescentSubsetHillClimber import SteepestDescentSubsetHillClimber
-        if protname == "EBVSubset":
-            import pybrops.breed.prot.sel.EstimatedBreedingValueSelection as E
-            prot = E.EstimatedBreedingValueSubsetSelection(
-                ntrait=2, unscale=True, ncross=2 + v % 2, nparent=2, nmating=1, nprogeny=2, nobj=1,
-                obj_wt=numpy.array([1.0]), obj_trans=_sum_trans, rng=rng,
-                soalgo=SteepestDescentSubsetHillClimber(rng=rng))
-        else:
+        nobj = 2 if (v % 2 and protname != "RandomSubset") else 1
+        dflt = v % 6 in DEFAULT_OPT_VARIANTS
+        kw = dict(ntrait=2, ncross=2 + (v // 2) % 2, nparent=2, nmating=1, nprogeny=2, nobj=nobj,
+                  obj_wt=numpy.ones(nobj), obj_trans=_sum_trans if nobj == 1 else _id_trans, rng=rng)
+        if nobj == 2:
+            kw.update(ndset_wt=1.0, ndset_trans=_ndset_trans)
+        ga = lambda mod, c: (_opt_cls(mod, c)(ngen=2, pop_size=8, rng=rng) if rng is not None else _opt_cls(mod, c)(ngen=2, pop_size=8))
+        if protname == "RandomSubset":
             import pybrops.breed.prot.sel.RandomSelection as R
-            prot = R.RandomSubsetSelection(
-                ntrait=2, ncross=2 + v % 2, nparent=2, nmating=1, nprogeny=2, nobj=1,
-                obj_wt=numpy.array([1.0]), obj_trans=_sum_trans, rng=rng,
-                soalgo=SteepestDescentSubsetHillClimber(rng=rng))
+            if not dflt:
+                kw["soalgo"] = SteepestDescentSubsetHillClimber(rng=rng)
+            prot = R.RandomSubsetSelection(**kw)
+        else:
+            kind = protname[3:]
+            if protname.startswith("OHV"):      # a MATE selection protocol (decisions are cross configurations)
+                import pybrops.breed.prot.sel.OptimalHaploidValueSelection as O
+                cls = getattr(O, "OptimalHaploidValue" + kind + "Selection")
+                kw.update(nhaploblk=2, unique_parents=bool(v % 4 < 2))
+            else:
+                import pybrops.breed.prot.sel.EstimatedBreedingValueSelection as E
+                cls = getattr(E, "EstimatedBreedingValue" + kind + "Selection")
+                kw.update(unscale=True)
+            if not dflt:
+                if kind == "Subset":
+                    kw["soalgo"] = SteepestDescentSubsetHillClimber(rng=rng)
+                else:
+                    kw["soalgo"] = ga(kind + "GeneticAlgorithm", kind + "GeneticAlgorithm")
+                if nobj == 2:
+                    kw["moalgo"] = ga("NSGA2" + kind + "GeneticAlgorithm", "NSGA2" + kind + "GeneticAlgorithm")
+            prot = cls(**kw)
+        if dflt:
+            for a in (prot.soalgo, prot.moalgo):
+                a.ngen, a.pop_size = 3, 8
         return prot, None
     return new
+
+
+def _ndset_trans(mat, **kw):
+    return mat.sum(1)
 
 
 def _select_use(prot, v):
@@ -697,6 +886,88 @@ def _select(protname):
     def run(rng, v):
         return _select_use(new(rng, v)[0], v)
     return run
+
+
+def _selprob_new(kind):
+    def new(rng, v):
+        import pybrops.breed.prot.sel.RandomSelection as R
+        cls = getattr(R, "Random" + kind + "Selection")
+        return cls(ntrait=2 + v % 2, ncross=2, nparent=2, nmating=1, nprogeny=2, nobj=1, obj_wt=numpy.array([1.0]),
+                   obj_trans=_sum_trans, rng=rng), None
+    return new
+
+
+def _selprob_use(prot, v):
+    fx = fixtures()
+    return prot.problem(fx["pg"], fx["pg"], None, fx["bv"], fx["gm"], 0, 1).rbv
+
+
+def _selprob(kind):
+    new = _selprob_new(kind)
+
+    def run(rng, v):
+        return _selprob_use(new(rng, v)[0], v)
+    return run
+
+
+_PROT_CLASSES = None
+
+
+def protocol_classes():
+    """every concrete selection protocol class of pybrops.breed.prot.sel whose constructor has an `rng` parameter
+    (59 on the unchanged tree: 18 protocol families x the decision-space kinds), with constructor arguments by name"""
+    global _PROT_CLASSES
+    if _PROT_CLASSES is None:
+        import importlib
+        import inspect
+        import pkgutil
+        import pybrops.breed.prot.sel as sel
+        from pybrops.popgen.cmat.fcty.DenseMolecularCoancestryMatrixFactory import DenseMolecularCoancestryMatrixFactory
+        from pybrops.model.vmat.fcty.DenseTwoWayDHAdditiveGeneticVarianceMatrixFactory import DenseTwoWayDHAdditiveGeneticVarianceMatrixFactory
+        from pybrops.popgen.gmap.HaldaneMapFunction import HaldaneMapFunction
+        from pybrops.breed.prot.mate.TwoWayDHCross import TwoWayDHCross
+        nv = fixtures()["nvrnt"]
+        args = dict(ncross=2, nparent=2, nprogeny=2, nmating=1, nobj=1, ntrait=2, unscale=True, unique_parents=True,
+                    nhaploblk=2, nself=0, nrep=1, alpha=0.5, upper_percentile=0.1, weight=numpy.ones((nv, 2)),
+                    target=numpy.ones((nv, 2)), nbestfndr=2, nconfig=2, cmatfcty=DenseMolecularCoancestryMatrixFactory(),
+                    vmatfcty=DenseTwoWayDHAdditiveGeneticVarianceMatrixFactory(), gmapfn=HaldaneMapFunction(),
+                    mateprot=TwoWayDHCross())
+        out = []
+        for m in pkgutil.iter_modules(sel.__path__):
+            if m.ispkg:
+                continue
+            try:
+                mod = importlib.import_module("pybrops.breed.prot.sel." + m.name)
+            except Exception:
+                continue
+            for n, c in sorted(vars(mod).items()):
+                if inspect.isclass(c) and c.__module__ == mod.__name__ and not inspect.isabstract(c):
+                    try:
+                        ps = inspect.signature(c.__init__).parameters
+                    except (TypeError, ValueError):
+                        continue
+                    if "rng" not in ps:
+                        continue
+                    req = [p.name for p in ps.values() if p.default is inspect.Parameter.empty
+                           and p.name != "self" and p.kind not in (p.VAR_KEYWORD, p.VAR_POSITIONAL)]
+                    if all(k in args for k in req):
+                        out.append((mod.__name__.split(".")[-1] + "." + n, c, {k: args[k] for k in req}))
+        _PROT_CLASSES = out
+    return _PROT_CLASSES
+
+
+def _ctor_rng(rng, v):
+    """construct EVERY concrete selection protocol class with the generator and report the state of the generator the
+    object ends up holding (a constructor that forgets to hand `rng` on leaves the object on the global generator)"""
+    out = []
+    for name, cls, kw in protocol_classes():
+        try:
+            o = cls(rng=rng, **kw)
+        except Exception as e:          # arguments by name did not fit this class: not this property's business
+            out.append(name + ":" + type(e).__name__)
+            continue
+        out.append(gen_state(o.rng))
+    return out
 
 
 # ---- secondary entry points ------------------------------------------------------------------------------
@@ -730,14 +1001,16 @@ def _wrappers(rng, v):
 def _seed_comp(rng, v):
     """seed() as a component: both global streams afterwards (seeds 0, 1, > 32 bit)"""
     import pybrops.core.random.prng as prng
-    prng.seed([0, 1, 7, 2 ** 40 + 3, 12345, 2 ** 32][v % 6])
+    prng.seed([0, 1, -7, 2 ** 40 + 3, 12345, 2 ** 32][v % 6])
     return [py_state(), np_state()]
 
 
 def _spawn_opts(rng, v):
     import pybrops.core.random.prng as prng
-    gens = [prng.spawn(), *prng.spawn(2, numpy.random.MT19937), *prng.spawn(1, sbits=32 + 16 * (v % 3)),
-            *prng.spawn(1, numpy.random.Philox, 128)]
+    sbits = (32, 48, 64, 16, 8, 1)[v % 6]
+    gens = [prng.spawn(), *prng.spawn(2, numpy.random.MT19937), *prng.spawn(2, sbits=sbits),
+            *prng.spawn(1, numpy.random.Philox, 128), prng.spawn(None, numpy.random.SFC64, sbits),
+            *prng.spawn(1, numpy.random.PCG64DXSM, 96), *prng.spawn(0), prng.spawn(None, sbits=sbits)]
     return [gen_state(g) for g in gens] + [g.random() for g in gens]
 
 
@@ -954,6 +1227,16 @@ def components():
     OBJ["sel.EBVSubset.select"] = (_select_new("EBVSubset"), _select_use)
     c["sel.RandomSubset.select"] = (True, _select("RandomSubset"), 0.5)
     OBJ["sel.RandomSubset.select"] = (_select_new("RandomSubset"), _select_use)
+    for kind in ("Real", "Integer", "Binary"):
+        c["sel.EBV" + kind + ".select"] = (True, _select("EBV" + kind), 0.3)
+        OBJ["sel.EBV" + kind + ".select"] = (_select_new("EBV" + kind), _select_use)
+    for kind in ("Subset", "Real", "Integer", "Binary"):       # the four MateSelectionProtocol base classes
+        c["sel.OHV" + kind + ".select"] = (True, _select("OHV" + kind), 0.3)
+        OBJ["sel.OHV" + kind + ".select"] = (_select_new("OHV" + kind), _select_use)
+    for kind in ("Subset", "Real", "Integer", "Binary"):
+        c["selprob.Random" + kind] = (True, _selprob(kind), 0.6)
+        OBJ["selprob.Random" + kind] = (_selprob_new(kind), _selprob_use)
+    c["sel.ctor_rng"] = (True, _ctor_rng, 0.5)
     # secondary entry points
     c["prng.seed"] = (False, _seed_comp, 0.5)
     c["prng.wrappers"] = (False, _wrappers, 2)
@@ -980,8 +1263,53 @@ def set_rng(name, obj, rng):
     """`obj.rng = rng` — for a selection protocol also on the optimiser it owns (the protocol and its `soalgo` are
     two holders of the generator the caller configured the protocol with)"""
     obj.rng = rng
-    if name.startswith("sel.") and getattr(obj, "soalgo", None) is not None:
-        obj.soalgo.rng = rng
+    if name.startswith("sel."):
+        for a in ("soalgo", "moalgo"):
+            if getattr(obj, a, None) is not None:
+                getattr(obj, a).rng = rng
+
+
+# ---- objects derived from objects: the copy API of a stochastic class (copy.deepcopy / copy.copy / .deepcopy() /
+# .copy()).  Only classes that DEFINE their own copy semantics take part (python's default deep copy of a class
+# without one clones whatever generator the object holds, which is the caller's business, not the library's).
+_COPY_HOWS = {}
+
+
+def copy_hows(name):
+    """ways of duplicating an object of the component's class through an API the class defines itself"""
+    if name in _COPY_HOWS:
+        return _COPY_HOWS[name]
+    hows = []
+    if name in OBJ:
+        st_py, st_np = random.getstate(), numpy.random.get_state()
+        try:
+            obj = OBJ[name][0](None, 0)[0]
+            own = [c for c in type(obj).__mro__ if (c.__module__ or "").startswith("pybrops")]
+            if any("__deepcopy__" in vars(c) for c in own):
+                hows.append("deepcopy")
+            if any("__copy__" in vars(c) for c in own):
+                hows.append("copy")
+            if any("deepcopy" in vars(c) for c in own):
+                hows.append("m_deepcopy")
+            if any("copy" in vars(c) for c in own):
+                hows.append("m_copy")
+        finally:
+            random.setstate(st_py)
+            numpy.random.set_state(st_np)
+    _COPY_HOWS[name] = hows
+    return hows
+
+
+def do_copy(obj, how):
+    if how == "deepcopy":
+        return copy.deepcopy(obj)
+    if how == "copy":
+        return copy.copy(obj)
+    if how == "m_deepcopy":
+        return obj.deepcopy()
+    if how == "m_copy":
+        return obj.copy()
+    raise ValueError(how)
 
 
 _COMPS = None
@@ -993,6 +1321,14 @@ def comps():
         compat.import_pybrops()
         _COMPS = components()
     return _COMPS
+
+
+BITGENS = ("PCG64", "MT19937", "Philox", "SFC64", "PCG64DXSM")     # index = `bg` of the model's SOpt
+
+
+def spawn_args(op):
+    """(BitGenerator class, sbits) of a `spawn` operation (defaults: PCG64, 64)"""
+    return getattr(numpy.random, BITGENS[op.get("bg", 0)]), op.get("sbits", 64)
 
 
 def make_gen(spec):
@@ -1042,6 +1378,39 @@ def _scan_source(src, mod):
                 if node.module == "numpy" and a.name == "random":
                     nprand_alias.add(a.asname or a.name)
     sites = []
+    # classes of this module that derive (directly or through another class of the module) from an operator base
+    # class of a plug-in framework (pymoo Sampling / Crossover / Mutation ...)
+    plugin_cls = set()
+    cls_bases = {}
+    for node in tree.body:
+        if isinstance(node, ast.ClassDef):
+            bs = []
+            for b in node.bases:
+                if isinstance(b, ast.Name):
+                    bs.append(b.id)
+                elif isinstance(b, ast.Attribute):
+                    d_ = []
+                    x = b
+                    while isinstance(x, ast.Attribute):
+                        d_.append(x.attr)
+                        x = x.value
+                    if isinstance(x, ast.Name):
+                        bs.append(".".join([x.id] + d_[::-1]))
+            cls_bases[node.name] = bs
+    changed = True
+    while changed:
+        changed = False
+        for c_, bs in cls_bases.items():
+            if c_ in plugin_cls:
+                continue
+            for b in bs:
+                head = b.split(".")[0]
+                src_mod = from_names.get(head, (head, None))[0] if head in from_names else head
+                if b in plugin_cls or (src_mod or "").split(".")[0] in PLUGIN_PKGS:
+                    plugin_cls.add(c_)
+                    changed = True
+                    break
+    name_refs = []          # (identifier, enclosing function qualname) of every Name load inside a function
 
     def dotted(n):
         parts = []
@@ -1096,6 +1465,7 @@ def _scan_source(src, mod):
             self.called = set()
             self.default_ok = set()
             self.seed_ctx = 0       # > 0 inside the arguments of a seeding call / the value of a `*seed*` variable
+            self.params = []        # parameter names of the enclosing functions
 
         def visit_Assign(self, n):
             named_seed = any(isinstance(t, ast.Name) and "seed" in t.id.lower() or
@@ -1119,10 +1489,18 @@ def _scan_source(src, mod):
             for dec in n.decorator_list:
                 self.visit(dec)
             self.visit(n.args)
+            params = [a.arg for a in n.args.posonlyargs + n.args.args + n.args.kwonlyargs]
             self.stack.append(n.name)
+            # a function that takes a generator must hand it on: `rng` parameter never read
+            body = [b for b in n.body if not (isinstance(b, ast.Expr) and isinstance(getattr(b, "value", None), ast.Constant))]
+            if "rng" in params and body and not all(isinstance(b, (ast.Pass, ast.Raise)) for b in body):
+                if not any(isinstance(x, ast.Name) and x.id == "rng" and isinstance(x.ctx, ast.Load) for b in body for x in ast.walk(b)):
+                    sites.append((mod, self.qual(), "rng-unused", "rng"))
             self.stack.append("<locals>")
+            self.params.append(params)
             for b in n.body:
                 self.visit(b)
+            self.params.pop()
             self.stack.pop()
             self.stack.pop()
 
@@ -1161,6 +1539,23 @@ def _scan_source(src, mod):
 
         def visit_Call(self, n):
             d = dotted(n.func)
+            # a generator is in scope (an `rng` parameter, or `self` of an object that may hold one) and the callee is ...
+            if self.params and ("rng" in self.params[-1] or "self" in self.params[-1]):
+                q_ = self.qual()
+                q_ = q_[:-len(".<locals>")] if q_.endswith(".<locals>") else q_
+                for k in n.keywords:        # ... told to use the global generator: `rng = None` / `rng = global_prng`
+                    if k.arg == "rng" and ((isinstance(k.value, ast.Constant) and k.value.value is None)
+                                           or (isinstance(k.value, ast.Name) and k.value.id == "global_prng")):
+                        sites.append((mod, q_, "rng-dropped", "rng = " + ("None" if isinstance(k.value, ast.Constant) else "global_prng")))
+                callee = n.func.id if isinstance(n.func, ast.Name) else (n.func.attr if isinstance(n.func, ast.Attribute) else None)
+                if callee in _RNG_CLASSES and not any(k.arg == "rng" or k.arg is None for k in n.keywords) \
+                        and not any(isinstance(a_, ast.Starred) for a_ in n.args) and len(n.args) <= _RNG_CLASSES[callee]:
+                    # ... a stochastic class constructed without any generator (its default is the global one)
+                    sites.append((mod, q_, "rng-omitted", callee))
+            if isinstance(n.func, ast.Name) and n.func.id in ("id", "hash") and self.seed_ctx:
+                # a memory address / a randomised string hash that ends up in a seed
+                sites.append((mod, (self.qual()[:-len(".<locals>")] if self.qual().endswith(".<locals>") else self.qual()),
+                              "os", "builtin " + n.func.id + "()"))
             if d:
                 c = classify(d)
                 if c:
@@ -1194,7 +1589,13 @@ def _scan_source(src, mod):
                                         or (c2[0] == "py" and c2[1] in ("seed", "Random")))
                 seeding = seeding or d[-1].lower() in ("seed", "default_rng", "randomstate", "seedsequence")
             self.seed_ctx += seeding
-            self.generic_visit(n)
+            for child in ast.iter_child_nodes(n):
+                # `f(..., seed = <expr>)` / `random_state = <expr>`: the expression ends up in a seed
+                kw_seed = isinstance(child, ast.keyword) and child.arg is not None and (
+                    "seed" in child.arg.lower() or child.arg.lower() in ("random_state", "entropy"))
+                self.seed_ctx += kw_seed
+                self.visit(child)
+                self.seed_ctx -= kw_seed
             self.seed_ctx -= seeding
 
         def visit_Attribute(self, n):
@@ -1218,6 +1619,8 @@ def _scan_source(src, mod):
             self.generic_visit(n)
 
         def visit_Name(self, n):
+            if isinstance(n.ctx, ast.Load) and self.stack:
+                name_refs.append((n.id, self.qual()))
             if n.id in from_names and id(n) not in self.called:
                 m, a = from_names[n.id]
                 if m.endswith("random.prng") and a == "global_prng":
@@ -1232,11 +1635,41 @@ def _scan_source(src, mod):
                         self.add("py", c[1])
 
     V().visit(tree)
+    # scope of a site: inside a plug-in operator class, or inside a module-level helper that is referenced only
+    # from such classes (and imported by no other module: checked in scan_static)
+    top_funcs = {n.name for n in tree.body if isinstance(n, (ast.FunctionDef, ast.AsyncFunctionDef))}
+    for (m_, q, _k, _w) in sites:
+        top = q.split(".")[0]
+        if top in plugin_cls:
+            _SCOPED[(m_, q)] = True
+        elif top in top_funcs:
+            refs = [rq for (nm, rq) in name_refs if nm == top and rq.split(".")[0] != top]
+            _SCOPED[(m_, q)] = bool(refs) and all(rq.split(".")[0] in plugin_cls for rq in refs)
+        else:
+            _SCOPED.setdefault((m_, q), False)
+    for nm, (m_, a_) in from_names.items():
+        _IMPORTED.add((m_, a_))
     return sites
 
 
+_SCOPED = {}        # (module, function qualname) -> the function only runs as part of a plug-in operator
+_IMPORTED = set()   # (module, name) pairs imported with `from module import name` anywhere in the package
+
+
+def site_scoped(mod, q):
+    """plug-in operator scope (see _scan_source); a module-level helper imported elsewhere is not scoped"""
+    scan_static()
+    if not _SCOPED.get((mod, q), False):
+        return False
+    top = q.split(".")[0]
+    return (mod, top) not in _IMPORTED
+
+
 _SCAN = None
-_PREFILTER = __import__("re").compile(r"random|global_prng|urandom|secrets|uuid|\btime\b|datetime")
+_PREFILTER = __import__("re").compile(r"random|global_prng|urandom|secrets|uuid|\btime\b|datetime|seed|rng")
+
+
+_RNG_CLASSES = {}      # class name -> position of `rng` among the positional parameters of its __init__ (without self)
 
 
 def scan_static():
@@ -1246,6 +1679,7 @@ def scan_static():
         return _SCAN
     root = compat.REPO
     out = []
+    files = []
     for dp, _dn, fns in os.walk(os.path.join(root, "pybrops")):
         if os.sep + "test" in dp:
             continue
@@ -1258,11 +1692,35 @@ def scan_static():
                 mod = mod[:-len(".__init__")]
             try:
                 src = open(path, encoding="utf-8", errors="replace").read()
-                if not _PREFILTER.search(src):       # no import of an entropy source: nothing to find
-                    continue
-                out += _scan_source(src, mod)
-            except SyntaxError:
-                out.append((mod, "<module>", "os", "unparsable-source"))
+            except OSError:
+                continue
+            if not _PREFILTER.search(src):       # no import of an entropy source, no generator: nothing to find
+                continue
+            files.append((mod, src))
+    # pass 1: the stochastic classes of the package (their constructor has an `rng` parameter)
+    _RNG_CLASSES.clear()
+    for mod, src in files:
+        if "rng" not in src:
+            continue
+        try:
+            tree = ast.parse(src)
+        except SyntaxError:
+            continue
+        for node in tree.body:
+            if isinstance(node, ast.ClassDef):
+                for b in node.body:
+                    if isinstance(b, ast.FunctionDef) and b.name == "__init__":
+                        pos = [a.arg for a in b.args.posonlyargs + b.args.args][1:]
+                        if "rng" in pos:
+                            _RNG_CLASSES[node.name] = pos.index("rng")
+                        elif "rng" in [a.arg for a in b.args.kwonlyargs]:
+                            _RNG_CLASSES[node.name] = 10 ** 6
+    # pass 2: the sites
+    for mod, src in files:
+        try:
+            out += _scan_source(src, mod)
+        except SyntaxError:
+            out.append((mod, "<module>", "os", "unparsable-source"))
     _SCAN = out
     return out
 
@@ -1364,24 +1822,27 @@ class Reach:
 
 
 def static_allow():
-    """(kind, module) pairs from the `via` tokens of the C08 `finding:` lines, plus the definition of
-    `global_prng` itself (pybrops.core.random.prng refers to numpy.random.random to get at the global RandomState)"""
-    allow = [("npref", "pybrops.core.random.prng")]
+    """allow-list from the `via` tokens of the C08 `finding:` lines, plus the definition of `global_prng` itself
+    (pybrops.core.random.prng refers to numpy.random.random to get at the global RandomState).
+    `npfn:<module>` / `pyfn:<module>` (a finding about the plug-in operators of a module / about a library the module
+    calls) -> (kind, module): covers sites in operator scope only; `<k>:<module>:<function>` -> ("static",
+    "module:function"): covers that function only."""
+    allow = [("static", "pybrops.core.random.prng", "<module>")]
     for f in findings.load("C08"):
         for t in f["match"].get("via", "").split("+"):
-            if ":" not in t:
+            parts = t.split(":")
+            if len(parts) < 2 or not parts[1].startswith("pybrops"):
                 continue
-            k, m = t.split(":", 1)
-            if not m.startswith("pybrops"):
-                continue
-            if k == "npfn":
-                allow += [("np", m), ("npref", m)]
+            k, m = parts[0], parts[1]
+            if len(parts) >= 3:
+                if k in ("npfn", "pyfn", "gprng", "static"):
+                    allow.append(("static", m, ":".join(parts[2:])))
+            elif k == "npfn":
+                allow += [("np", m, ""), ("npref", m, "")]
             elif k == "pyfn":
-                allow.append(("py", m))
+                allow.append(("py", m, ""))
             elif k == "gprng":
-                allow.append(("gprng", m))
-            elif k == "static":
-                allow.append(("static", m))
+                allow.append(("gprng", m, ""))
     return sorted(set(allow))
 
 
@@ -1406,7 +1867,8 @@ def static_table(rows, reach):
         names = reach.by_row.get((mod, q), []) if reach is not None else []
         good = [idx[n] for n in names if n in idx and _stream_in(kind, rows[idx[n]])][:4]
         other = [idx[n] for n in names if n in idx][:2]
-        out.append({"module": mod, "func": q, "kind": kind, "what": what, "count": c, "reached": good or other})
+        out.append({"module": mod, "func": q, "kind": kind, "what": what, "count": c, "reached": good or other,
+                    "scoped": site_scoped(mod, q)})
     return out
 
 
@@ -1419,10 +1881,10 @@ def render_static(sites, allow):
     lines = []
     for x in sites:
         lines.append(f"  ⟨{_lean_str(x['module'])}, {_lean_str(x['func'])}, {_lean_str(x['kind'])}, {_lean_str(x['what'])}, "
-                     f"{x['count']}, [{', '.join(str(i) for i in x['reached'])}]⟩")
+                     f"{x['count']}, [{', '.join(str(i) for i in x['reached'])}], {'true' if x['scoped'] else 'false'}⟩")
     out.append(",\n".join(lines))
-    out += ["]", "", "def allow : List (String × String) := ["
-            + ", ".join(f"({_lean_str(k)}, {_lean_str(m)})" for k, m in allow) + "]", "", "end C08Static", ""]
+    out += ["]", "", "def allow : List (String × String × String) := ["
+            + ", ".join(f"({_lean_str(k)}, {_lean_str(m)}, {_lean_str(f)})" for k, m, f in allow) + "]", "", "end C08Static", ""]
     return "\n".join(out)
 
 
@@ -1456,16 +1918,29 @@ def attribute_leak(name, v, gen_spec_or_state):
 
 def attribute_obj_leak(name, obj, v):
     """who drew from a global stream during a method call of an object that holds its own generator?
-    Re-run on a clone of that generator with recording proxies; global states and the object's generator
-    are restored afterwards."""
+    Re-run with recording proxies: every holder (the object, its sub-objects) of the object's generator draws from
+    a clone of it, every holder of the global generator draws through the proxy; afterwards each holder has
+    exactly the generator it had, and the global states are restored."""
     st_py, st_np = random.getstate(), numpy.random.get_state()
-    old = getattr(obj, "rng", None)
+    old = getattr(obj, "_rng", None)
     log = set()
     os_s = npfn_s = []
     try:
-        if old is not None:
-            set_rng(name, obj, copy.deepcopy(old))
-        with TR as tr, traced_global(log):
+        subs = [obj] + [x for x in vars(obj).values() if hasattr(x, "__dict__")]
+    except TypeError:
+        subs = [obj]
+    swapped = []
+    try:
+        with TR as tr, traced_global(log) as proxy:
+            clone = copy.deepcopy(old) if (old is not None and old is not _RAND) else None
+            for o in subs:
+                r = getattr(o, "_rng", None)
+                if r is _RAND:
+                    swapped.append((o, r))
+                    o._rng = proxy
+                elif clone is not None and r is old:
+                    swapped.append((o, r))
+                    o._rng = clone
             tr.begin()
             try:
                 OBJ[name][1](obj, v)
@@ -1473,22 +1948,20 @@ def attribute_obj_leak(name, obj, v):
                 pass
             os_s, npfn_s = tr.end()
     finally:
-        if old is not None:
-            try:
-                set_rng(name, obj, old)
-            except Exception:
-                pass
+        for o, r in swapped:
+            o._rng = r
         random.setstate(st_py)
         numpy.random.set_state(st_np)
     return sorted(set(npfn_s) | set(os_s) | log)
 
 
 def measure_component(name, tr):
-    """small rows are measured at v=0; `@large` rows at both sizes (v=0: 12 000, v=1: 70 000), merged"""
-    if not is_large(name):
-        return measure_component_at(name, tr, 0)
-    if "HillClimber" in name:          # one size only, two calls (O(n) objective evaluations per sweep)
+    """rows are measured at v=0 (in full) and v=1 (one call per mode), merged; for `@large` rows these are the two
+    sizes (v=0: 12 000, v=1: 70 000)"""
+    if "HillClimber" in name and is_large(name):      # one size only, two calls (O(n) objective evaluations per sweep)
         return measure_component_at(name, tr, 0, light=True)
+    # small rows: variant 0 in full, variant 1 (the other branch of two-branch components: multi-objective select(),
+    # tie-rich problems, two environments ...) with one call per mode; `@large` rows: both sizes
     a = measure_component_at(name, tr, 0)
     b = measure_component_at(name, tr, 1, light=True)
     for mode in ("glob", "expl"):
@@ -1548,9 +2021,9 @@ def measure_component_at(name, tr, v0, light=False):
     os_all = set(os1)
     leak = []
     if accepts:
-        def explmode(seed_glob):
+        def explmode(seed_glob, gkind="pcg"):
             prng.seed(seed_glob)
-            own = make_gen(["pcg", 4242])
+            own = make_gen([gkind, 4242])
             p0, n0, o0 = py_state(), np_state(), gen_state(own)
             tr.begin()
             out = _call(name, own, v0)
@@ -1564,9 +2037,24 @@ def measure_component_at(name, tr, v0, light=False):
         if e_out2 != e_out1 and not (e1["py"] or e1["np"] or e1["os"]):
             # result depends on a global stream that was read without being advanced
             e1["np"] = True
+        lk_kind = "pcg"
+        if not light:
+            # the other way of spelling a caller generator: a legacy RandomState (duck-typed `randint` vs `integers`)
+            r_out1, r1, ros1 = explmode(777, "rs")
+            os_all |= set(ros1)
+            if (r1["py"] or r1["np"] or r1["os"]) and not (e1["py"] or e1["np"] or e1["os"]):
+                lk_kind = "rs"
+            for k_ in ("own", "py", "np", "os"):
+                e1[k_] = e1[k_] or r1[k_]
+            if not (e1["py"] or e1["np"] or e1["os"]):
+                r_out2, _r2, ros2 = explmode(31337, "rs")
+                os_all |= set(ros2)
+                if r_out2 != r_out1:
+                    e1["np"] = True
+                    lk_kind = "rs"
         row["expl"] = e1
         if e1["py"] or e1["np"] or e1["os"]:
-            leak = attribute_leak(name, v0, ["pcg", 4242]) or ["unattributed:" + name]
+            leak = attribute_leak(name, v0, [lk_kind, 4242]) or ["unattributed:" + name]
     else:
         row["expl"] = dict(g1)
     row["osSites"] = sorted(os_all)
@@ -1611,7 +2099,8 @@ def measure_object(name, tr, row):
             if hist == 3 and accepts:
                 set_rng(name, obj, None)           # the generator re-assigned (setter derives private state again)
             prng.seed(777)
-            return dig(use(obj, 0))
+            # (the result AND both global streams afterwards: an optimiser may find the same optimum from another seed)
+            return dig(use(obj, 0)), py_state(), np_state()
         outs = [after_history(h) for h in (1, 2, 3)]
         cached = len(set(outs)) > 1
     row["cached"] = cached
@@ -1813,7 +2302,7 @@ def exec_ops(ops, tr, ext, spawned, env):
             spawned = []
             out = "seeded"
         elif "spawn" in op:
-            new = prng.spawn(op["spawn"])
+            new = prng.spawn(op["spawn"], *spawn_args(op))
             out = dig([gen_state(g) for g in new])
             spawned = spawned + list(new)
         elif "new" in op:
@@ -1826,6 +2315,10 @@ def exec_ops(ops, tr, ext, spawned, env):
         elif "setrng" in op:
             name, obj = env.objs[op["setrng"]]
             set_rng(name, obj, rng)
+            out = dig(None)
+        elif "copy" in op:
+            name, obj = env.objs[op["copy"]]
+            env.objs.append((name, do_copy(obj, op["how"])))
             out = dig(None)
         else:
             out = dig(comps()[op["c"]][1](rng, op.get("v", 0)))
@@ -1870,43 +2363,143 @@ def exec_program(case, which, tr, env=None):
 
 
 # ------------------------------------------------------------------------------------------------
+# another PROCESS: the same seeded program in a fresh interpreter (other pid, other address-space layout, other
+# string-hash randomisation, other start time).  Everything `seed()` does not control differs for real there.
+# ------------------------------------------------------------------------------------------------
+def run_seeded_prog(prog):
+    """digests of the results of a program of `seed` / `spawn` / rng=None component calls, one per step"""
+    import pybrops.core.random.prng as prng
+    outs = []
+    restore_shared()
+    for op in prog:
+        if "seed" in op:
+            prng.seed(op["seed"])
+            outs.append("seeded")
+        elif "spawn" in op:
+            outs.append(dig([gen_state(g) for g in prng.spawn(op["spawn"], *spawn_args(op))]))
+        else:
+            outs.append(dig(comps()[op["c"]][1](None, op.get("v", 0))))
+    return outs
+
+
+def child_main():
+    """entry point of the child interpreter: program on stdin, digests on stdout"""
+    prog = json.load(sys.stdin)
+    fixtures()
+    real_stdout = sys.stdout
+    sys.stdout = sys.stderr
+    ctx = contextlib.nullcontext
+    if os.environ.get("C08_MUTANT"):        # self-test: the parent runs under an in-memory mutant, so must the child
+        ctx = dict(PROP.mutants())[os.environ["C08_MUTANT"]]
+    try:
+        with ctx():
+            outs = run_seeded_prog(prog)
+    finally:
+        sys.stdout = real_stdout
+    sys.stdout.write("C08CHILD " + json.dumps(outs) + "\n")
+
+
+_XPROC = {}          # json(prog, hashseed) -> running child started ahead of time
+_XPROC_DONE = {}     # json(prog, hashseed) -> digests of the unmutated child (re-used by the self-test)
+_ACTIVE_MUTANT = None
+_BASE_OBS = {}       # case -> observation on the unmutated code (self-test)
+_KILLED = {}         # mutant name -> a Spec failure has been observed in the current evaluation
+XPROC_MUTANTS = ("tiled_choice_seeded_from_string_hash",)     # self-test mutants that only another process can expose
+
+
+def xproc_start(prog, hashseed):
+    import subprocess
+    env = dict(os.environ)
+    env["PYTHONHASHSEED"] = str(hashseed)
+    env["PYTHONDONTWRITEBYTECODE"] = "1"
+    env["PYBROPS_REPO"] = compat.REPO
+    env.pop("C08_MUTANT", None)
+    if _ACTIVE_MUTANT in XPROC_MUTANTS:
+        env["C08_MUTANT"] = _ACTIVE_MUTANT
+    root = os.path.dirname(os.path.dirname(os.path.dirname(os.path.abspath(__file__))))
+    p = subprocess.Popen([sys.executable, "-c", "from harness.props import c08; c08.child_main()"], cwd=root, env=env,
+                         stdin=subprocess.PIPE, stdout=subprocess.PIPE, stderr=subprocess.PIPE, text=True)
+    p.stdin.write(json.dumps(prog))
+    p.stdin.close()
+    return p
+
+
+def xproc_collect(p, timeout=600):
+    try:
+        p.wait(timeout=timeout)
+    except Exception:
+        p.kill()
+        raise RuntimeError("child interpreter timed out")
+    out, err = p.stdout.read(), p.stderr.read()
+    for line in out.splitlines():
+        if line.startswith("C08CHILD "):
+            return json.loads(line[len("C08CHILD "):])
+    raise RuntimeError("child interpreter failed: " + err[-800:])
+
+
+def xproc_key(case):
+    return json.dumps([case["prog"], case.get("hashseed", 4242)], sort_keys=True)
+
+
+def xproc_corpus_cases():
+    """every small component once with rng=None after a seed, in ONE child interpreter (the import dominates)"""
+    prog = [{"seed": 20240229}, {"spawn": 2}]
+    for i, n in enumerate(comps()):
+        if not is_large(n):
+            prog.append({"c": n, "v": i % 6})
+    return [{"kind": "xproc", "prog": prog, "hashseed": 4242}]
+
+
+# ------------------------------------------------------------------------------------------------
 # the property module
 # ------------------------------------------------------------------------------------------------
 class C08(Prop):
     PID = "C08"
     MODULE = "PybropsModel.Props.C08"
-    N_QUICK = 200
+    N_QUICK = 170
     N_THOROUGH = 1200
     CORRESPONDENCE = "relational"
-    RULE = ("programs of 1-8 stochastic API operations over 46 small components (7 mating protocols, phenotyping, 4 "
+    RULE = ("programs of 1-8 stochastic API operations over 59 small components (7 mating protocols, phenotyping, 4 "
             "samplers, 8 sampled selection configurations, 13 pymoo optimisers, 3 DEAP-based legacy optimisers, hill climber, "
-            "apply_jitter, EMBV matrix, two select(), all prng wrappers, seed, spawn options, the second copy of meiosis in "
-            "core/util/mate.py) in six argument variants each (per-item arrays, ties, zero weights, one complete tiling set, "
-            "nself 0-2, non-PSD / PSD-but-for-rounding / unfixable matrices, Fortran order, ...) and 34 size-gated `@large` "
-            "variants; calls are made with rng=None / a spawned generator / a caller generator (PCG64, MT19937 Generator or "
-            "RandomState), on components built afresh AND on long-lived objects (new / use / setrng) built in a set-up before "
-            "the re-seeding; every program is executed twice in-process after two different random prior histories (draws, "
-            "foreign seeds, component calls, OS-seeded generators, cached gaussians) - with `share` the second execution "
-            "continues with the objects of the first (one object: seed, use, ..., seed, use); input arrays are long-lived and "
-            "handed to every call; kind `repro` re-seeds with the same seed, kind `isolated` does not seed and only hands over "
-            "caller generators; kind `prim` runs seed()/spawn() against their literal Lean model.  Non-trivial = the two "
-            "executions start from different python AND numpy global states and the program makes >= 2 stochastic calls "
-            "(repro) / >= 1 (isolated)")
-    TRUSTED = ["the dependency table is measured (state snapshots of random / numpy.random / the generator handed in, "
-               "interception of os.urandom / os.getpid / numpy.random.<fn> / random.<fn>, perturbation runs, objects built "
-               "after three different histories) on the explored calls only",
+            "apply_jitter, EMBV matrix, select() of the four decision-space kinds of plain AND mate selection protocols in its single- and multi-objective branch, with explicit and with default optimisers, "
+            "the four Random*SelectionProblem factories, the constructors of all 59 concrete selection protocol classes, all prng wrappers, seed, spawn options (five bit generators, 1-128 "
+            "seed bits), the second copy of meiosis in core/util/mate.py) in six argument variants each (per-item arrays, "
+            "ties and tie-rich optimisation problems, zero weights, one complete tiling set, nself 0-2, crosses with repeated "
+            "parents, a one-marker chromosome with inbred / fully heterozygous parents, non-PSD / PSD-but-for-rounding / "
+            "unfixable matrices, Fortran order, ...) and 27 size-gated `@large` variants; calls are made with rng=None / a "
+            "spawned generator / a caller generator (PCG64, MT19937 Generator or legacy RandomState - every optimiser with "
+            "all three), on components built afresh AND on long-lived objects (new / use / setrng / copy: every way of "
+            "duplicating a class that defines its own copy semantics) built in a set-up before the re-seeding; every program "
+            "is executed twice in-process after two different random prior histories (draws, foreign seeds, component "
+            "calls, OS-seeded generators, cached gaussians) - with `share` the second execution continues with the objects "
+            "of the first (one object: seed, use, ..., seed, use); input arrays are long-lived and handed to every call; kind "
+            "`repro` re-seeds with the same seed, kind `isolated` does not seed and only hands over caller generators; kind "
+            "`xproc` runs one seeded program over every small component in this process and in a FRESH interpreter (other "
+            "pid, address space, string-hash randomisation); kind `prim` runs seed()/spawn() against their literal Lean "
+            "model.  Non-trivial = the two executions start from different python AND numpy global states and the program "
+            "makes >= 2 stochastic calls (repro, xproc) / >= 1 (isolated)")
+    TRUSTED = ["the dependency table is measured (state snapshots of random / numpy.random / the generator handed in - a "
+               "PCG64 Generator and a legacy RandomState -, interception of os.urandom / os.getpid / numpy.random.<fn> / "
+               "random.<fn>, perturbation runs, objects built after three different histories, results AND stream states "
+               "compared) on the explored calls only",
                "the static table is an AST scan (aliases of numpy / numpy.random / random / os / time / datetime / secrets / "
-               "uuid and `from` imports are followed; getattr-style dynamic access is not) plus sys.monitoring function "
-               "reach during the measurement",
+               "uuid and `from` imports are followed, id() / hash() / clocks count when they flow into a seed argument; "
+               "getattr-style dynamic access is not followed) plus sys.monitoring function reach during the measurement; "
+               "`operator scope` of a site (method of a pybrops subclass of a pymoo operator, or module-level helper referenced "
+               "only from such classes) is decided by the same scan",
                "sha1 digests of canonical bytes stand for bit-identity of results and generator states",
-               "hash randomisation, thread scheduling, BLAS non-determinism are outside the model"]
+               "thread scheduling and BLAS non-determinism are outside the model (string-hash randomisation, pid and address "
+               "space are explored by the `xproc` case: one fresh interpreter per run)"]
     ASSUMPTIONS = ["progeny names / family numbers of mating protocols come from per-object counters and are not part of the "
                    "property: long-lived mating objects are compared on genotypes and family structure",
                    "seed(None) (seeding from the OS) is out of scope: the property quantifies over given seeds",
                    "a program names caller generators by construction seed, spawned generators by index since the last "
                    "seed(), objects by construction order; an object holding a spawned generator is not used after a later seed()",
                    "in-place samplers (axis_shuffle, outcross_shuffle, apply_jitter) get a fresh copy of their operand; every "
-                   "other input array is one long-lived object shared by all calls of a case"]
+                   "other input array is one long-lived object shared by all calls of a case",
+                   "duplicating an object is a program operation only for classes that define their own copy semantics "
+                   "(__copy__ / __deepcopy__ / copy() / deepcopy()); python's default deep copy of a class without one clones "
+                   "whatever generator the object holds, which is the caller's doing, not the library's"]
 
     def __init__(self):
         self._table = None
@@ -1942,6 +2535,12 @@ class C08(Prop):
                 with open(STATIC_FILE, "w") as f:
                     f.write(stext)
         self._measure_s = round(time.time() - t0, 2)
+        try:        # the child interpreter of the corpus `xproc` case runs while this process builds and explores
+            for c in xproc_corpus_cases():
+                if xproc_key(c) not in _XPROC:
+                    _XPROC[xproc_key(c)] = xproc_start(c["prog"], c.get("hashseed", 4242))
+        except Exception:
+            pass
         return True, ""
 
     def static_sites(self):
@@ -1999,6 +2598,13 @@ class C08(Prop):
                     if k >= len(objs) or objs[k][0] != op["cls"] or not comps()[op["cls"]][0]:
                         return False
                     objs[k][1], objs[k][2] = a, True
+                elif "copy" in op:
+                    k = op["copy"]
+                    if k >= len(objs) or objs[k][0] != op["cls"] or op.get("how") not in copy_hows(op["cls"]):
+                        return False
+                    if share and part == "prog":
+                        return False
+                    objs.append([objs[k][0], objs[k][1], objs[k][2]])
                 else:
                     return False
         return True
@@ -2007,7 +2613,12 @@ class C08(Prop):
         out = [{"kind": "table"}, {"kind": "static"},
                {"kind": "prim", "start": 5, "ops": [{"seed": 0}, {"spawn": 3}, {"spawn": 0}, {"spawn": 2}, {"seed": 2 ** 32 + 5},
                                                     {"spawn": 1}, {"seed": 12345}, {"seed": 2 ** 63 + 11}, {"spawn": 4}]},
-               {"kind": "prim", "start": 9, "ops": [{"spawn": 2}, {"seed": 1}, {"spawn": 70}]}]
+               {"kind": "prim", "start": 9, "ops": [{"spawn": 2}, {"seed": 1}, {"spawn": 70}]},
+               # the rarely used arguments of spawn(): every bit generator class, 1-128 seed bits, n = None
+               {"kind": "prim", "start": 3, "ops": [{"seed": 7}] + [{"spawn": 2, "bg": b, "sbits": k} for b, k in
+                                                                  [(1, 32), (2, 128), (3, 16), (4, 96), (0, 1), (0, 8)]]
+                + [{"spawn": 1, "none": True, "bg": 1, "sbits": 32}, {"spawn": 1, "none": True}, {"seed": 7},
+                   {"spawn": 2, "bg": 1, "sbits": 32}, {"spawn": 3, "sbits": 8}]}]
         pre_a = [["seed", 1], ["py", 3], ["np", 5]]
         pre_b = [["npseed", 99], ["normal", 3], ["py", 1], ["osgen", 1]]
         names = list(comps())
@@ -2015,6 +2626,8 @@ class C08(Prop):
         # `table_unseeded_known` obligation: run the offending component twice)
         for i, n in enumerate(names):
             vs = (0, 1) if is_large(n) else (i % 6, (i + 3) % 6)
+            if n == "prng.wrappers":
+                vs = (0, 2)         # variant 0 calls EVERY public wrapper of the global generator
             out.append({"kind": "repro", "pre_a": pre_a, "pre_b": pre_b, "ext": [],
                         "prog": [{"seed": 12345}, {"c": n, "rng": "glob", "v": vs[0]}, {"c": n, "rng": "glob", "v": vs[1]}]})
         out.append({"kind": "repro", "pre_a": pre_a, "pre_b": [["spawn", 2]], "ext": [],
@@ -2023,10 +2636,9 @@ class C08(Prop):
         for i, n in enumerate(names):
             if comps()[n][0]:
                 kinds = ["pcg", "mt", "rs"]
-                if is_large(n) or n.startswith("opt."):
+                if is_large(n):
                     ext = [[kinds[i % 3], 7 + i]]
-                    prog = [{"c": n, "rng": ["ext", 0], "v": 1}] if is_large(n) else \
-                        [{"c": n, "rng": ["ext", 0], "v": 0}, {"c": n, "rng": ["ext", 0], "v": 1}]
+                    prog = [{"c": n, "rng": ["ext", 0], "v": 1}]
                 else:       # a Generator on PCG64, a Generator on MT19937 and a legacy RandomState
                     ext = [[k, 7 + i + j] for j, k in enumerate(kinds)]
                     prog = [{"c": n, "rng": ["ext", j], "v": (i + j) % 6} for j in range(3)]
@@ -2063,6 +2675,32 @@ class C08(Prop):
                             "ext": [[["pcg", "mt", "rs"][(g0 + k) % 3], 70 + g0 + k] for k in range(len(accg))],
                             "setup": [{"new": n, "rng": ["ext", k], "v": v} for k, n in enumerate(accg)],
                             "prog": [{"use": k, "cls": n, "v": (v + j) % 3} for j in (0, 1) for k, n in enumerate(accg)]})
+        # objects derived from objects: every class that defines its own copy semantics, every way of copying;
+        # the duplicates (not the original) are the objects used after the re-seeding
+        for n in onames:
+            hows = copy_hows(n)
+            if not hows:
+                continue
+            cps = [{"copy": 0, "cls": n, "how": h} for h in hows]
+            uses = [{"use": k, "cls": n, "v": k % 3} for k in range(1, len(hows) + 1)] + [{"use": 0, "cls": n, "v": 0}]
+            for share in (False, True):
+                c = {"kind": "repro", "pre_a": pre_a, "pre_b": [["np", 2], ["normal", 3], ["call", "samp.tiled_choice", 1]],
+                     "ext": [], "setup": [{"new": n, "rng": "glob", "v": 0}, {"use": 0, "cls": n, "v": 1}] + cps,
+                     "prog": [{"seed": 41}] + uses}
+                if share:
+                    c["share"] = True
+                out.append(c)
+            if comps()[n][0]:
+                # a duplicate of an object that holds the caller's generator; a duplicate taken BEFORE the generator is
+                # re-assigned keeps the old one
+                out.append({"kind": "isolated", "pre_a": [["seed", 5], ["np", 2]], "pre_b": [["seed", 6], ["py", 4]],
+                            "ext": [["pcg", 90], ["rs", 91]],
+                            "setup": [{"new": n, "rng": ["ext", 0], "v": 0}] + cps,
+                            "prog": uses})
+                out.append({"kind": "repro", "pre_a": pre_a, "pre_b": pre_b, "ext": [],
+                            "setup": [{"new": n, "rng": "glob", "v": 0}, cps[0]],
+                            "prog": [{"seed": 42}, {"spawn": 1}, {"setrng": 0, "cls": n, "rng": ["spawned", 0]},
+                                     {"use": 1, "cls": n, "v": 0}, {"use": 0, "cls": n, "v": 0}, {"use": 1, "cls": n, "v": 2}]})
         # an object built on a spawned generator inside the program; generator re-assigned inside the program
         out.append({"kind": "repro", "pre_a": pre_a, "pre_b": pre_b, "ext": [],
                     "setup": [{"new": "mate.TwoWayCross", "rng": "glob", "v": 0}],
@@ -2082,9 +2720,19 @@ class C08(Prop):
                     "prog": [{"seed": 12345}, {"c": "opt.SubsetGeneticAlgorithm", "rng": "glob", "v": 0}]})
         out.append({"kind": "isolated", "pre_a": [["seed", 3]], "pre_b": [["seed", 4]], "ext": [["pcg", 1]],
                     "prog": [{"c": "opt.SubsetGeneticAlgorithm", "rng": ["ext", 0], "v": 0}]})
+        # D12d: a protocol built with the caller's generator and NO optimiser constructs its default optimiser on the
+        # global generator (all four decision-space kinds, single- and multi-objective)
+        for i, kind in enumerate(("Subset", "Real", "Integer", "Binary")):
+            fam = ("EBV", "OHV")[i % 2]        # plain and mate selection protocols alternately
+            out.append({"kind": "isolated", "pre_a": [["seed", 21]], "pre_b": [["seed", 22], ["np", 1]],
+                        "ext": [[("pcg", "mt", "rs", "pcg")[i], 17 + i]],
+                        "prog": [{"c": "sel." + fam + kind + ".select", "rng": ["ext", 0], "v": 4},
+                                 {"c": "sel." + fam + kind + ".select", "rng": ["ext", 0], "v": 5}]})
         # D11c: the DEAP-based legacy set GA samples its tournaments from python's `random`
         out.append({"kind": "isolated", "pre_a": [["seed", 3]], "pre_b": [["seed", 4]], "ext": [["pcg", 1]],
                     "prog": [{"c": "opt.UnconstrainedSetGeneticAlgorithm", "rng": ["ext", 0], "v": 0}]})
+        # the same seeded program in ANOTHER interpreter process (last: its child was started in pre_build)
+        out += xproc_corpus_cases()
         return out
 
     def exhaustive(self, tier):
@@ -2136,6 +2784,13 @@ class C08(Prop):
                 ops.append(["call", rng.choice(cheap), rng.randint(0, 5)])
         return ops
 
+    @staticmethod
+    def _sopt(rng):
+        """rarely used arguments of spawn() (a third of the spawn operations)"""
+        if rng.random() < 0.67:
+            return {}
+        return {"bg": rng.randrange(len(BITGENS)), "sbits": rng.choice([1, 8, 16, 32, 48, 64, 96, 128])}
+
     def _v(self, rng, name):
         return rng.randint(0, 2) if is_large(name) else rng.randint(0, 5)
 
@@ -2153,7 +2808,7 @@ class C08(Prop):
             if rng.random() < 0.03:
                 out.append({"kind": "prim", "start": rng.randint(0, 99),
                             "ops": [({"seed": rng.choice([0, 1, 2 ** 32, rng.randint(0, 2 ** 63)])} if rng.random() < 0.4
-                                     else {"spawn": rng.randint(0, 5)}) for _k in range(rng.randint(2, 6))]})
+                                     else dict({"spawn": rng.randint(0, 5)}, **self._sopt(rng))) for _k in range(rng.randint(2, 6))]})
                 continue
             kind = "isolated" if rng.random() < 0.3 else "repro"
             share = kind == "repro" and rng.random() < 0.3
@@ -2174,6 +2829,11 @@ class C08(Prop):
                         a = ["ext", rng.randrange(len(ext))] if (ext and comps()[nm][0] and rng.random() < 0.3) else "glob"
                     setup.append({"new": nm, "rng": a, "v": self._v(rng, nm)})
                     objs.append([nm, a])
+                for k in range(len(objs)):
+                    hows = copy_hows(objs[k][0])
+                    if hows and rng.random() < 0.6:
+                        setup.append({"copy": k, "cls": objs[k][0], "how": rng.choice(hows)})
+                        objs.append(list(objs[k]))
                 for _k in range(rng.randint(0, 3)):
                     k = rng.randrange(len(objs))
                     if kind == "repro" and comps()[objs[k][0]][0] and rng.random() < 0.2:
@@ -2193,7 +2853,7 @@ class C08(Prop):
                     r = rng.random()
                     if r < 0.12:
                         k = rng.randint(0, 3)
-                        prog.append({"spawn": k})
+                        prog.append(dict({"spawn": k}, **self._sopt(rng)))
                         nsp += k
                     elif r < 0.17:
                         prog.append({"seed": rng.randint(0, 2 ** 34)})
@@ -2235,6 +2895,37 @@ class C08(Prop):
 
     # ------------------------------------------------------------------ implementation
     def run_impl(self, case):
+        """(self-test only) once a mutant has produced a Spec failure on a case that passes unmutated, the remaining
+        cases of that mutant's evaluation are answered from the unmutated observations: the kill is already decided
+        - by the core, on the real failing observation - and the other 400 executions would add nothing"""
+        key = None
+        if case.get("kind") in ("repro", "isolated", "xproc"):
+            key = json.dumps(case, sort_keys=True)
+            if _ACTIVE_MUTANT is not None and _KILLED.get(_ACTIVE_MUTANT) and key in _BASE_OBS:
+                return _BASE_OBS[key]
+        obs = self._run_impl(case)
+        if key is not None:
+            if _ACTIVE_MUTANT is None:
+                _BASE_OBS[key] = obs
+            elif key in _BASE_OBS and not self._quick_fail(case, _BASE_OBS[key]) and self._quick_fail(case, obs):
+                _KILLED[_ACTIVE_MUTANT] = True
+        return obs
+
+    def _quick_fail(self, case, obs):
+        """the Spec clauses on one observation, evaluated here (the verdict itself is always the driver's)"""
+        try:
+            if case["kind"] == "xproc":
+                return obs["here"] != obs["there"]
+            if case["kind"] == "repro" and [s_["out"] for s_ in obs["A"]["steps"]] != [s_["out"] for s_ in obs["B"]["steps"]]:
+                return True
+            for _i, x, y in self._explicit_steps(case, obs):
+                if x["py0"] != x["py1"] or x["np0"] != x["np1"] or y["py0"] != y["py1"] or y["np0"] != y["np1"] or x["out"] != y["out"]:
+                    return True
+        except Exception:
+            return False
+        return False
+
+    def _run_impl(self, case):
         global _WARM
         if not _WARM:
             warm_up()
@@ -2247,6 +2938,8 @@ class C08(Prop):
             return {"sites": self.static_sites()}
         if case["kind"] == "prim":
             return self._run_prim(case)
+        if case["kind"] == "xproc":
+            return self._run_xproc(case)
         if not self._valid(case):
             raise ValueError("ill-formed program (generator/shrinker bug)")
         st_py, st_np = random.getstate(), numpy.random.get_state()
@@ -2266,6 +2959,28 @@ class C08(Prop):
         return {"A": a, "B": b}
 
     @staticmethod
+    def _run_xproc(case):
+        for op in case["prog"]:
+            if "c" in op and (op["c"] not in comps()):
+                raise ValueError("ill-formed program (generator/shrinker bug)")
+        key = xproc_key(case)
+        child = None
+        reuse = _ACTIVE_MUTANT is not None and _ACTIVE_MUTANT not in XPROC_MUTANTS and key in _XPROC_DONE
+        if not reuse:
+            child = _XPROC.pop(key, None) if _ACTIVE_MUTANT is None else None
+            child = child or xproc_start(case["prog"], case.get("hashseed", 4242))
+        st_py, st_np = random.getstate(), numpy.random.get_state()
+        try:
+            here = run_seeded_prog(case["prog"])
+        finally:
+            random.setstate(st_py)
+            numpy.random.set_state(st_np)
+            there = _XPROC_DONE[key] if reuse else xproc_collect(child)
+        if _ACTIVE_MUTANT is None:
+            _XPROC_DONE[key] = there
+        return {"here": here, "there": there}
+
+    @staticmethod
     def _run_prim(case):
         """seed()/spawn() against their literal Lean model: record the four primitives from the standard library
         (reference pass), then run the real prng.seed / prng.spawn from the same start"""
@@ -2283,15 +2998,16 @@ class C08(Prop):
                     p0 = py_state()
                     v = random.randint(0, 2 ** 32 - 1)
                     py_seed.append([str(op["seed"]), p0])
-                    py_draw.append([p0, v, py_state()])
+                    py_draw.append([32, p0, v, py_state()])
                     numpy.random.seed(v)
                     np_seed.append([str(v), np_state()])
                 else:
+                    BG, sbits = spawn_args(op)
                     for _ in range(op["spawn"]):
                         p = py_state()
-                        v = random.randint(0, 2 ** 64 - 1)
-                        py_draw.append([p, v, py_state()])
-                        gen_seed.append([str(v), gen_state(numpy.random.Generator(numpy.random.PCG64(v)))])
+                        v = random.randint(0, 2 ** sbits - 1)
+                        py_draw.append([sbits, p, v, py_state()])
+                        gen_seed.append([op.get("bg", 0), str(v), gen_state(numpy.random.Generator(BG(v)))])
             random.setstate(s0[0])
             numpy.random.set_state(s0[1])
             real = []
@@ -2299,8 +3015,10 @@ class C08(Prop):
                 gens = []
                 if "seed" in op:
                     prng.seed(op["seed"])
+                elif op.get("none") and op["spawn"] == 1:       # spawn(None, ...): one generator, not a list
+                    gens = [gen_state(prng.spawn(None, *spawn_args(op)))]
                 else:
-                    gens = [gen_state(g) for g in prng.spawn(op["spawn"])]
+                    gens = [gen_state(g) for g in prng.spawn(op["spawn"], *spawn_args(op))]
                 real.append({"py": py_state(), "np": np_state(), "gens": gens})
         finally:
             random.setstate(st_py)
@@ -2327,6 +3045,8 @@ class C08(Prop):
                 explicit = a != "glob"
             elif "setrng" in op:
                 handles[op["setrng"]] = a
+            elif "copy" in op:
+                handles.append(handles[op["copy"]])
             elif "use" in op:
                 explicit = handles[op["use"]] != "glob"
             elif "c" in op:
@@ -2340,8 +3060,12 @@ class C08(Prop):
             return [{"op": "c08.table"}]
         if case["kind"] == "static":
             return [{"op": "c08.static"}]
+        if case["kind"] == "xproc":
+            return [{"op": "c08.spec_repro", "a": obs["here"], "b": obs["there"]}]
         if case["kind"] == "prim":
-            return [{"op": "c08.prim_run", "ops": case["ops"], **{k: obs[k] for k in ("py", "np", "py_seed", "py_draw", "np_seed", "gen_seed")}}]
+            return [{"op": "c08.prim_run", "ops": [({"seed": o["seed"]} if "seed" in o else
+                                                   {"spawn": o["spawn"], "bg": o.get("bg", 0), "bits": o.get("sbits", 64)})
+                                                  for o in case["ops"]], **{k: obs[k] for k in ("py", "np", "py_seed", "py_draw", "np_seed", "gen_seed")}}]
         reqs = [{"op": "c08.predict", "setup": [self._model_op(op) for op in case.get("setup", [])],
                  "prog": [self._model_op(op) for op in case["prog"]], "n_ext": len(case.get("ext", [])),
                  "share": bool(case.get("share"))}]
@@ -2358,13 +3082,15 @@ class C08(Prop):
         if "seed" in op:
             return {"seed": op["seed"]}
         if "spawn" in op:
-            return {"spawn": op["spawn"]}
+            return {"spawn": op["spawn"], "bg": op.get("bg", 0), "bits": op.get("sbits", 64)}
         if "new" in op:
             return {"new": op["new"], "rng": op["rng"]}
         if "use" in op:
             return {"use": op["use"], "c": op["cls"]}
         if "setrng" in op:
             return {"setrng": op["setrng"], "c": op["cls"], "rng": op["rng"]}
+        if "copy" in op:
+            return {"copy": op["copy"]}
         return {"c": op["c"], "rng": op["rng"]}
 
     def judge(self, case, obs, answers):
@@ -2383,12 +3109,19 @@ class C08(Prop):
                     "detail": f"compiled table {'==' if corr else '!='} measured table ({len(mine)} rows); rows failing a table obligation: {bad}"}
         if case["kind"] == "static":
             t = answers[0]["ok"]
-            mine = [[x["module"], x["func"], x["kind"], x["what"], x["count"], x["reached"]] for x in obs["sites"]]
-            theirs = [[x["module"], x["func"], x["kind"], x["what"], x["count"], x["reached"]] for x in t["sites"]]
+            mine = [[x["module"], x["func"], x["kind"], x["what"], x["count"], x["reached"], x["scoped"]] for x in obs["sites"]]
+            theirs = [[x["module"], x["func"], x["kind"], x["what"], x["count"], x["reached"], x["scoped"]] for x in t["sites"]]
             corr = mine == theirs
             bad = [f"{x['module']}:{x['func']}:{x['what']}" for x in t["sites"] if not x["covered"]]
             return {"corr": corr, "spec": True, "nontrivial": False,
                     "detail": f"compiled static table {'==' if corr else '!='} scanned sites ({len(mine)}); uncovered sites: {bad}"}
+        if case["kind"] == "xproc":
+            r = answers[0]["ok"]
+            fails = [] if r["ok"] else [[r["first_diff"] if r["first_diff"] is not None else 0, "xproc",
+                                         "outputs differ between two interpreter processes after the same seed()"]]
+            return {"corr": True, "spec": bool(r["ok"]), "nontrivial": len(case["prog"]) >= 3, "fails": fails,
+                    "detail": f"xproc: the seeded program in this process and in a fresh interpreter (PYTHONHASHSEED="
+                              f"{case.get('hashseed', 4242)}): {r['detail']}"}
         if case["kind"] == "prim":
             model = answers[0]["ok"]["steps"]
             corr = model == obs["real"]
@@ -2455,12 +3188,27 @@ class C08(Prop):
     def signature(self, case, obs, verdict):
         sig = {"kind": case.get("kind")}
         fails = verdict.get("fails") if isinstance(verdict, dict) else None
-        if not fails or not isinstance(obs, dict) or "A" not in obs:
+        if not fails or not isinstance(obs, dict) or ("A" not in obs and "here" not in obs):
+            return sig
+        if case.get("kind") == "xproc":
+            i = fails[0][0]
+            op = case["prog"][i] if i < len(case["prog"]) else {}
+            sig.update({"component": op.get("c", "seed/spawn"), "cond": "unseeded_entropy", "via": "other_process"})
             return sig
         i, clause, _ = fails[0]
         ops = case.get("setup", []) + case["prog"]
         op = ops[i]
         sig["component"] = op.get("c") or op.get("cls") or op.get("new") or ("spawn" if "spawn" in op else "seed")
+        if str(sig["component"]).startswith("sel."):
+            v_new = op.get("v", 0)
+            if "use" in op:         # the variant the object was constructed with
+                made = [o for o in ops if "new" in o or "copy" in o]
+                o = made[op["use"]] if op["use"] < len(made) else {}
+                while "copy" in o:
+                    o = made[o["copy"]]
+                v_new = o.get("v", 0)
+            if v_new % 6 in DEFAULT_OPT_VARIANTS:
+                sig["variant"] = "default_optimiser"
         nset = len(case.get("setup", []))
         share = bool(case.get("share"))
         steps = [obs["A"]["setup"] + obs["A"]["steps"],
@@ -2488,6 +3236,17 @@ class C08(Prop):
 
     # ------------------------------------------------------------------ shrinking
     def shrink(self, case):
+        if case.get("kind") == "xproc":
+            prog = case["prog"]
+            half = len(prog) // 2
+            if half >= 2:           # (each candidate costs one interpreter start: halve first)
+                yield dict(case, prog=prog[:1] + prog[1 + half:])
+                yield dict(case, prog=prog[:1 + half])
+            if len(prog) <= 8:
+                for i in range(1, len(prog)):
+                    if len(prog) > 2:
+                        yield dict(case, prog=prog[:i] + prog[i + 1:])
+            return
         if case.get("kind") not in ("repro", "isolated"):
             return
         prog = case["prog"]
@@ -2513,7 +3272,7 @@ class C08(Prop):
                         elif op[key] != k:
                             out.append(dict(op, **{key: op[key] - (1 if op[key] > k else 0)}))
                     return out
-                if any("new" in op for op in prog):
+                if any("new" in op for op in prog) or any("copy" in op for op in setup + prog):
                     continue
                 c["setup"] = ren(setup[:i] + setup[i + 1:])
                 c["prog"] = ren(prog)
@@ -2773,7 +3532,98 @@ class C08(Prop):
 
         orig_mat_mate = twc.mat_mate
 
-        return [
+        # ---- round 4: generator kinds, objects derived from objects, narrow options with a registry, ties,
+        # duplicates of a repaired factory, partially structured genomes --------------------------------
+        import pybrops.opt.algo.RealGeneticAlgorithm as rga
+        import pybrops.breed.prot.sel.prob.RandomSelectionProblem as rsp
+        exec("def _c08_draw_seed(rng):\n"
+             "    return int((rng.integers if hasattr(rng, 'integers') else np.random.randint)(0, 2**31-1))\n", addon.__dict__)
+        orig_rga_min = rga.RealGeneticAlgorithm.minimize
+
+        def ga_seed_helper_duck_typed(self, prob, miscout=None, **kw):   # class (4): legacy RandomState only (C08-d2)
+            addon._c08_draw_seed(self.rng)          # a NON-operator function of pymoo_addon: D11b must not cover it
+            return orig_rga_min(self, prob, miscout, **kw)
+
+        orig_dc = gep.G_E_Phenotyping.__deepcopy__
+
+        def pheno_deepcopy_clones_generator(self, memo=None):              # class (1)/(5): C08-d3
+            out = orig_dc(self, memo if memo is not None else {})
+            out._rng = copy.deepcopy(self._rng)
+            return out
+
+        orig_cp = gep.G_E_Phenotyping.__copy__
+
+        def pheno_copy_rebinds_global(self):                                 # a shallow copy forgets the caller's generator
+            out = orig_cp(self)
+            out._rng = prng.global_prng
+            return out
+
+        narrow_seeds = set()
+
+        def spawn_narrow_registry(n=None, BitGenerator=numpy.random.PCG64, sbits=64):   # class (4)+(1): C08-d1
+            def one():
+                x = py_random.randint(0, 2 ** sbits - 1)
+                if sbits <= 32:
+                    while x in narrow_seeds and len(narrow_seeds) < 2 ** sbits:
+                        x = py_random.randint(0, 2 ** sbits - 1)
+                    narrow_seeds.add(x)
+                return numpy.random.Generator(BitGenerator(x))
+            return one() if n is None else [one() for _ in range(n)]
+
+        def hillclimber_tie_break_global(self, prob, miscout=None, **kw):    # class (2): exact ties only
+            orig_eval = prob.evalfn
+            last = [None]
+
+            def evalfn(x, *a, **k):
+                r = orig_eval(x, *a, **k)
+                sc = float(r[0].sum())
+                if last[0] is not None and sc == last[0]:
+                    numpy.random.random()
+                last[0] = sc
+                return r
+            prob.evalfn = evalfn
+            try:
+                return orig_min(self, prob, miscout, **kw)
+            finally:
+                del prob.evalfn
+
+        orig_real_from = rsp.RandomRealSelectionProblem.from_object.__func__
+
+        def random_real_problem_global(cls, *a, **k):                        # class (5): duplicate of the D12b site
+            k["rng"] = None
+            return orig_real_from(cls, *a, **k)
+
+        def meiosis_global_on_one_marker_chromosome(geno, sel, xoprob, rng):  # class (6)
+            x = numpy.asarray(xoprob)
+            if numpy.any((x[:-1] == 0.5) & (x[1:] == 0.5)):
+                rng = prng.global_prng
+            return orig_meiosis(geno, sel, xoprob, rng)
+
+        import pybrops.breed.prot.sel.WeightedGenomicSelection as wgs
+        orig_wgs_init = wgs.WeightedGenomicSubsetSelection.__init__
+
+        def protocol_ctor_drops_rng(self, *a, **k):                  # class (5): one of 59 protocol constructors
+            k["rng"] = None
+            return orig_wgs_init(self, *a, **k)
+
+        def tiled_hash_seeded(a, size=None, replace=True, p=None, rng=None):   # only ANOTHER PROCESS sees a different hash
+            return orig_tiled(a, size, replace, p, numpy.random.RandomState(hash("tiled_choice") % (2 ** 32)))
+
+        def named(name, factory):
+            @contextlib.contextmanager
+            def cm():
+                global _ACTIVE_MUTANT
+                old, _ACTIVE_MUTANT = _ACTIVE_MUTANT, name
+                _KILLED[name] = False
+                try:
+                    with factory():
+                        yield
+                finally:
+                    _ACTIVE_MUTANT = old
+            return (name, cm)
+
+        return [named(*m) for m in [
+            ("tiled_choice_seeded_from_string_hash", lambda: patch(sampling, "tiled_choice", tiled_hash_seeded)),
             ("seed_without_numpy", lambda: patch(prng, "seed", seed_py_only)),
             ("seed_numpy_from_os", lambda: patch(prng, "seed", seed_numpy_from_os)),
             ("spawn_from_os_entropy", lambda: patch(prng, "spawn", spawn_from_os)),
@@ -2804,7 +3654,15 @@ class C08(Prop):
             ("mating_selfing_generations_use_global", lambda: patch(twc, "mat_mate", mate_selfing_global)),
             ("spawn_returns_streams_in_reverse_order", lambda: patch(prng, "spawn", spawn_reversed)),
             ("seed_numpy_from_second_draw", lambda: patch(prng, "seed", seed_numpy_from_second_draw)),
-        ]
+            ("ga_seed_helper_duck_typed_on_integers_attribute", lambda: patch(rga.RealGeneticAlgorithm, "minimize", ga_seed_helper_duck_typed)),
+            ("phenotyping_deepcopy_clones_generator", lambda: patch(gep.G_E_Phenotyping, "__deepcopy__", pheno_deepcopy_clones_generator)),
+            ("phenotyping_shallow_copy_rebinds_global", lambda: patch(gep.G_E_Phenotyping, "__copy__", pheno_copy_rebinds_global)),
+            ("spawn_narrow_seed_registry_survives_seed", lambda: patch(prng, "spawn", spawn_narrow_registry)),
+            ("hillclimber_tie_break_from_global_stream", lambda: patch(hc.SteepestDescentSubsetHillClimber, "minimize", hillclimber_tie_break_global)),
+            ("random_real_problem_factory_ignores_rng", lambda: patch(rsp.RandomRealSelectionProblem, "from_object", classmethod(random_real_problem_global))),
+            ("meiosis_global_on_one_marker_chromosome", lambda: patch(mutil, "mat_meiosis", meiosis_global_on_one_marker_chromosome)),
+            ("one_protocol_constructor_drops_rng", lambda: patch(wgs.WeightedGenomicSubsetSelection, "__init__", protocol_ctor_drops_rng)),
+        ]]
 
 
 PROP = C08()
